@@ -340,7 +340,7 @@ class Check:
             "violations": len(self.violations),
         }
         # a development run that skipped the Coq build is not a record of a check: keep it apart
-        evdir = os.path.join(VERIF, ".dev_evidence") if getattr(self, "no_build", False) else EVIDENCE
+        evdir = os.path.join(VERIF, ".dev_evidence") if getattr(self, "dev_run", False) else EVIDENCE
         os.makedirs(evdir, exist_ok=True)
         with open(os.path.join(evdir, "%s.json" % self.pid), "w") as f:
             json.dump(ev, f, indent=1, default=str)
